@@ -185,4 +185,34 @@ theorem PermRel.map_perm {R : α → β → Prop} {f : α → γ} {g : β → γ
   obtain ⟨m, hp, hr⟩ := h
   rw [← hr.map_eq hfg]; exact hp.map f
 
+theorem Rel₂.refl_of {R : α → α → Prop} (hR : ∀ a, R a a) : ∀ (l : List α), Rel₂ R l l
+  | [] => .nil
+  | x :: xs => .cons (hR x) (Rel₂.refl_of hR xs)
+
+theorem Rel₂.append {R : α → β → Prop} {a : List α} {b : List β} {c : List α} {d : List β} (h1 : Rel₂ R a b)
+    (h2 : Rel₂ R c d) : Rel₂ R (a ++ c) (b ++ d) := by
+  induction h1 with
+  | nil => exact h2
+  | cons hab _ ih => exact .cons hab ih
+
+theorem Rel₂.map {R : α → β → Prop} {γ' δ' : Type _} {S : γ' → δ' → Prop} {f : α → γ'} {g : β → δ'} {l : List α}
+    {l' : List β} (h : Rel₂ R l l') (hfg : ∀ a b, R a b → S (f a) (g b)) : Rel₂ S (l.map f) (l'.map g) := by
+  induction h with
+  | nil => exact .nil
+  | cons hab _ ih => exact .cons (hfg _ _ hab) ih
+
+theorem PermRel.map {R : α → β → Prop} {γ' δ' : Type _} {S : γ' → δ' → Prop} {f : α → γ'} {g : β → δ'} {l : List α}
+    {l' : List β} (h : PermRel R l l') (hfg : ∀ a b, R a b → S (f a) (g b)) : PermRel S (l.map f) (l'.map g) := by
+  obtain ⟨m, hp, hr⟩ := h
+  exact ⟨m.map f, hp.map f, hr.map hfg⟩
+
+theorem PermRel.append {R : α → β → Prop} {a : List α} {b : List β} {c : List α} {d : List β} (h1 : PermRel R a b)
+    (h2 : PermRel R c d) : PermRel R (a ++ c) (b ++ d) := by
+  obtain ⟨m1, p1, r1⟩ := h1
+  obtain ⟨m2, p2, r2⟩ := h2
+  exact ⟨m1 ++ m2, p1.append p2, r1.append r2⟩
+
+theorem PermRel.refl_of {R : α → α → Prop} (hR : ∀ a, R a a) (l : List α) : PermRel R l l :=
+  ⟨l, List.Perm.refl _, Rel₂.refl_of hR l⟩
+
 end NGF.ListPerm
